@@ -180,6 +180,10 @@ def main(argv=None) -> int:
         ctx.note(f"{len(ctx.divergences)} correspondence divergences")
     write_evidence(ctx, proof, len(lines), known_hits, extra)
 
+    if internal_error is None and ctx.hist.get("internal_errors"):
+        # errors of the machinery inside individual cases (forked workers) must not pass silently as reduced coverage
+        internal_error = (f"{ctx.hist['internal_errors']} case(s) ended in an internal error of the harness:\n"
+                          + "\n".join(n for n in ctx.notes if n.startswith("internal error in case"))[:3000])
     if internal_error is not None:
         print("INTERNAL ERROR in check machinery (not a verdict):")
         print(internal_error)
